@@ -7,6 +7,13 @@ HERE = os.path.dirname(os.path.dirname(os.path.abspath(__file__)))
 
 # id -> (category, technique, text, note, design_ref)
 CLAIMED = {
+    "C15": (
+        "exploration",
+        "exhaustive enumeration of programs over a letter alphabet, each executed at several hbar values with unit-rescaled parameters on every simulator; differential oracle in the configuration",
+        "Every program of length <= 2 (thorough 3 on the phase-space simulators) over 21 letters x placements on 2 modes, plus all one-mode programs up to length 2 (3), is run at hbar = 0.5, 1, 3.7 and at 2 on the Gaussian, bosonic and Fock simulators with dimensionful parameters (Xgate, Zgate, homodyne select, Gaussian V and r, Vgate gamma) rescaled by their documented units: Fock probabilities, photon-number moments, parity, fidelities equal; means/sqrt(hbar/2), cov/(hbar/2), quadrature moments, Wigner function on the rescaled grid, second-order polynomial expectations equal after rescaling; is_coherent/is_squeezed/displacement/squeezing equal and repeatable; no query mutates the state.",
+        "hbar from a 4-value set; unit conventions transcribed from docstrings.",
+        "DESIGN.md section 4 (C15)",
+    ),
     "C16": (
         "model_checking",
         "exhaustive enumeration of reachable states x every state-object query x every mode subset/order, on three representations, against closed Gaussian formulas and a dense truncated-Fock reference",
